@@ -23,7 +23,27 @@ func il(v int64) ast.Node                        { return ast.IntLit{V: v} }
 // the call expression rendering its result.
 func pureFunction(r *core.Rng) (defs []ast.Node, callExpr ast.Node, kind string) {
 	deep := ast.Assign{Name: "pdeep", Value: ast.FuncLit{Params: []string{"n"}, Body: ast.If{Cond: ast.Binary{Op: "<=", L: nm("n"), R: il(0)}, Then: il(0), Else: ast.Binary{Op: "+", L: il(1), R: icall("pdeep", ast.Binary{Op: "-", L: nm("n"), R: il(1)})}}}}
-	switch r.Intn(11) {
+	switch r.Intn(12) {
+	case 11: // closures that leave their call through yield (the call itself returns a number), called again after the context was recycled
+		kind = "yielded-closures"
+		body := ast.Block{Stmts: []ast.Node{
+			ast.Assign{Name: "mk", Value: ast.FuncLit{Params: []string{"a"}, Body: ast.Block{Stmts: []ast.Node{
+				ast.Assign{Name: "x", Value: ast.Binary{Op: "*", L: nm("a"), R: il(3)}},
+				ast.Yield{X: ast.FuncLit{Body: nm("x")}},
+				ast.Assign{Name: "x", Value: ast.Binary{Op: "+", L: nm("x"), R: il(1)}},
+				ast.Yield{X: ast.FuncLit{Body: ast.ArrayLit{Elems: []ast.Node{nm("x"), nm("a")}}}},
+				il(7)}}}},
+			ast.Assign{Name: "hs", Value: ast.ArrayLit{}},
+			ast.For{Vars: []string{"g"}, Iters: []ast.Node{icall("mk", nm("n"))}, Body: ast.Assign{Name: "hs", Value: ast.Binary{Op: "+", L: nm("hs"), R: ast.ArrayLit{Elems: []ast.Node{nm("g")}}}}},
+			ast.Assign{Name: "ga", Value: ast.Index{X: nm("hs"), I: il(0)}},
+			ast.Assign{Name: "gb", Value: ast.Index{X: nm("hs"), I: il(1)}},
+			ast.Assign{Name: "before", Value: ast.ArrayLit{Elems: []ast.Node{icall("ga"), icall("gb")}}},
+			ast.For{Vars: []string{"i", "j"}, Iters: []ast.Node{icall("fromto", il(100), il(103)), icall("elems", ast.StrLit{V: "uvw"})}, Body: nm("i")},
+			ast.Assign{Name: "t", Value: icall("pdeep", il(int64(r.Range(3, 40))))},
+			ast.ArrayLit{Elems: []ast.Node{nm("before"), icall("ga"), icall("gb")}},
+		}}
+		defs = []ast.Node{deep, ast.Assign{Name: "pf", Value: ast.FuncLit{Params: []string{"n"}, Body: body}}}
+		return defs, toa(icall("pf", il(int64(r.Range(1, 9))))), kind
 	case 10: // a loop as the last statement of the function; the call that matters runs it zero times (the value is nil)
 		kind = "loop-tail-possibly-empty"
 		var body ast.Node
@@ -182,10 +202,12 @@ func pureFunction(r *core.Rng) (defs []ast.Node, callExpr ast.Node, kind string)
 			ast.Assign{Name: "acc", Value: ast.ArrayLit{}},
 			ast.For{Vars: []string{"v"}, Iters: []ast.Node{icall("gen")}, Body: ast.Block{Stmts: []ast.Node{
 				ast.Assign{Name: "h", Value: icall("add", nm("v"))},
+				// the captured variable changes and the main stack may be reallocated between two resumptions of the generator
+				ast.Assign{Name: "x", Value: ast.Binary{Op: "+", L: nm("x"), R: icall("pdeep", il(int64([]int{0, 3, 70, 160, 400}[r.Intn(5)])))}},
 				ast.Assign{Name: "acc", Value: ast.Binary{Op: "+", L: nm("acc"), R: ast.ArrayLit{Elems: []ast.Node{icall("h", il(k))}}}}}}},
 			nm("acc"),
 		}}
-		defs = []ast.Node{ast.Assign{Name: "pf", Value: ast.FuncLit{Params: []string{"n"}, Body: body}}}
+		defs = []ast.Node{deep, ast.Assign{Name: "pf", Value: ast.FuncLit{Params: []string{"n"}, Body: body}}}
 		return defs, toa(icall("pf", il(int64(r.Range(1, 9))))), kind
 	default: // loops over generators and returned closures inside f
 		kind = "loops-and-returned-closures"
@@ -501,7 +523,7 @@ func init() {
 			{Name: "uninit", Count: countFn(300, 12000), Run: c03Uninit},
 			{Name: "depths", Count: countFn(48, 1200), Run: func(ctx *core.Ctx, idx int) core.Result { return depthCase("C03", ctx, idx) }},
 		},
-		Floors: []core.Floor{{Key: "placements_compared", Quick: 12000, Thor: 500000}, {Key: "tag:placement:", Quick: 21, Thor: 21}, {Key: "tag:function:", Quick: 11, Thor: 11}, {Key: "stack_growths", Quick: 3000, Thor: 80000}, {Key: "context_clone_reuse", Quick: 500, Thor: 15000}},
+		Floors: []core.Floor{{Key: "placements_compared", Quick: 12000, Thor: 500000}, {Key: "tag:placement:", Quick: 21, Thor: 21}, {Key: "tag:function:", Quick: 12, Thor: 12}, {Key: "stack_growths", Quick: 3000, Thor: 80000}, {Key: "context_clone_reuse", Quick: 500, Thor: 15000}},
 	})
 	core.CaseSeconds["C03/placements"] = 1
 }
